@@ -160,7 +160,7 @@ fn reply_backlog(c: &mut Case) {
     wire::begin_request(&mut bytes, id, wire::RESPONDER, 1, 0);
     wire::record(&mut bytes, wire::PARAMS, id, &[], 0);
     let pre = bytes.len();
-    let n_records = 200 + c.rng.below(600);
+    let n_records = if c.ctx.miri() { 12 + c.rng.below(12) } else { 200 + c.rng.below(600) };
     for i in 0..n_records {
         if c.rng.chance(1, 2) {
             let t = loop {
